@@ -27,6 +27,109 @@ def assign_of(e):
     return None
 
 
+def run_exec_traces(res, ast, ec):
+    import trace as tr
+    node = ec["node"]
+    ps = [p_["pat"]["name"] for p_ in node["sig"]["inputs"] if p_["t"] == "Arg" and p_["pat"]["t"] == "PIdent"]
+    w = where(HPBF, node, "execute_code")
+    if len(ps) != 5:
+        res.bad("CLI-KIND", f"{HPBF}|execute_code|signature", w, "execute_code does not have the parameters (code, kind, opt, limit, safe)")
+        res.bad("CLI-MODE", f"{HPBF}|execute_code|mode-chain", w, "execute_code does not have the parameters (code, kind, opt, limit, safe)")
+        return
+    try:
+        en = ast.item(HPBF, "Enum", "ExecutorKind")
+    except Missing as m:
+        res.missing("CLI-KIND", m)
+        return
+    CODE, OPT, LIM = tr.Sym("param:code"), tr.Sym("param:opt"), tr.Sym("payload:limit")
+    modes = (("limited", tr.Some(LIM), True), ("limited-static", tr.Some(LIM), False), ("checked", tr.NONE, True), ("static", tr.NONE, False))
+    mode_ok = {m_[0]: True for m_ in modes}
+    mode_why = {}
+    for v in en["variants"]:
+        vn = v["name"]
+        key = f"{HPBF}|execute_code|kind|{vn}"
+        if vn not in EXECUTORS and vn not in PRINTERS:
+            res.bad("CLI-KIND", key, w, f"ExecutorKind::{vn} is not in the correspondence table (fail closed)")
+            continue
+        problems = []
+        for mname, lim, safe in modes:
+            for failing in ((), ("create", "parse")):
+                it = tr.TraceInterp(ast, HPBF, fallible=("create", "parse", "print_llvm_ir"), fail=failing)
+                env = tr.Env()
+                for n_, v_ in zip(ps, (CODE, tr.Sym("path:ExecutorKind::" + vn), OPT, lim, safe)):
+                    env.bind(n_, v_)
+                res.evaluations += 1
+                try:
+                    try:
+                        ret = it.exec_block(node["body"], env)
+                    except tr.ReturnEx as r_:
+                        ret = r_.value
+                except (tr.Unanalysable, tr.Reached, tr.ExitEx, KeyError, TypeError, AttributeError) as u_:
+                    problems.append(f"{mname}: cannot be analysed (fail closed): {type(u_).__name__} {u_}")
+                    continue
+                ev = it.events
+                runs = [e_ for e_ in ev if e_[0] == "method" and e_[1].startswith("execute")]
+                srcs = [e_ for e_ in ev if e_[0] == "call" and e_[1].split("::")[-1] in ("create", "parse")]
+                if failing:
+                    # a parse error must come back to main and nothing may run
+                    if not (isinstance(ret, tr.Res) and not ret.ok and isinstance(ret.v, tr.Sym) and ret.v.label.startswith("error:")):
+                        problems.append(f"{mname}: a parse/create error is not returned to main (returns {ret!r})")
+                    if runs:
+                        problems.append(f"{mname}: something is executed although parsing failed")
+                    continue
+                if not (isinstance(ret, tr.Res) and ret.ok):
+                    problems.append(f"{mname}: returns {ret!r} on success")
+                if not srcs or any(not (list(e_[2]) in ([CODE], [CODE, OPT])) for e_ in srcs):
+                    problems.append(f"{mname}: the program is not built from (code[, opt]): {[(e_[1], e_[2]) for e_ in srcs]}")
+                if vn in EXECUTORS:
+                    want = EXECUTORS[vn] + "::create"
+                    if [e_[1] for e_ in srcs] != [want] or list(srcs[0][2]) != [CODE, OPT]:
+                        problems.append(f"{mname}: must build {want}(code, opt); builds {[e_[1] for e_ in srcs]}")
+                        continue
+                    obj = tr.Sym("call:" + want, (CODE, OPT))
+                    ctxs = [e_ for e_ in ev if e_[0] == "call" and e_[1] == "Context::with_stdio"]
+                    cx = tr.Sym("call:Context::with_stdio", ())
+                    if len(ctxs) != 1:
+                        problems.append(f"{mname}: the context is not Context::with_stdio()")
+                    if any(e_[2] != obj for e_ in runs) or any(list(e_[3]) != [cx] for e_ in runs):
+                        problems.append(f"{mname}: the executed object/context is not the one just built: {runs}")
+                    budget = [e_ for e_ in ev if e_[0] == "assign" and e_[1] == "budget"]
+                    pre = [e_ for e_ in ev if e_[0] == "method" and e_[1] == "make_accessible"]
+                    seq = [e_[1] if e_[0] == "method" else "budget=" for e_ in ev if e_ in runs or e_ in budget or e_ in pre]
+                    good = None
+                    if mname.startswith("limited"):
+                        good = seq == ["budget=", "execute_limited"] and budget[0][2] == cx and budget[0][3] == LIM
+                        if not good:
+                            mode_ok["limited"] = False
+                            mode_why["limited"] = f"{vn}: with --limit the run must be `cxt.budget = limit; execute_limited(cxt)`; found {seq}"
+                    elif mname == "checked":
+                        good = seq == ["execute"]
+                        if not good:
+                            mode_ok["checked"] = False
+                            mode_why["checked"] = f"{vn}: the default run must be the checked `execute(cxt)` and nothing else; found {seq}"
+                    else:
+                        good = seq == ["make_accessible", "execute_unsafe"]
+                        if good:
+                            lo, hi = pre[0][3] if len(pre[0][3]) == 2 else (None, None)
+                            good = isinstance(lo, int) and isinstance(hi, int) and lo == -hi and hi >= 1 << 20 and pre[0][2] == tr.Sym("f:memory", (cx,))
+                        if not good:
+                            mode_ok["static"] = False
+                            mode_why["static"] = f"{vn}: --static must pre-allocate a large symmetric window on the context's tape and then call execute_unsafe; found {seq} {pre[0][3] if pre else ''}"
+                else:
+                    if runs:
+                        problems.append(f"{mname}: a print option executes the program ({[e_[1] for e_ in runs]})")
+                    outs = [e_ for e_ in ev if (e_[0] == "print" and e_[1] in ("println", "print")) or (e_[0] == "method" and e_[1] in ("write_all", "write"))]
+                    shown = [x for e_ in outs for x in (e_[2] if e_[0] == "print" else e_[3])]
+                    if not outs or not any(tr.derives_from(x, CODE) for x in shown):
+                        problems.append(f"{mname}: nothing derived from the code is printed")
+                    if any(e_[0] == "method" and e_[1] in ("input",) for e_ in ev):
+                        problems.append(f"{mname}: input is read")
+        res.check(not problems, "CLI-KIND", key, w, f"ExecutorKind::{vn}: " + "; ".join(sorted(set(problems))[:4]))
+    for mname in ("limited", "checked", "static"):
+        res.check(mode_ok[mname] and mode_ok.get(mname + "-static", True), "CLI-MODE", f"{HPBF}|execute_code|mode|{mname}", w,
+                  mode_why.get(mname) or mode_why.get(mname + "-static") or "")
+
+
 def run_cli(res, ast):
     res.files.add(HPBF)
     res.rule("CLI-FLAGS", "every flag literal assigns the configuration variable the usage text documents "
@@ -46,7 +149,12 @@ def run_cli(res, ast):
     try:
         main = ast.fn(HPBF, "main")
         ec = ast.fn(HPBF, "execute_code")
-        pe = ast.fn(HPBF, "print_error")
+        # the error reporter, by role: the free function taking one `Error` by value
+        cands_ = [f_ for f_ in ast.find_fns(HPBF) if not f_["container"] and len(f_["node"]["sig"]["inputs"]) == 1 and f_["node"]["sig"]["inputs"][0]["t"] == "Arg"
+                  and f_["node"]["sig"]["inputs"][0]["ty"]["s"].replace(" ", "") in ("Error", "hpbf::Error")]
+        if len(cands_) != 1:
+            raise Missing(f"{HPBF}: the error-reporting function `fn(Error)`: found {[c_['name'] for c_ in cands_]}")
+        pe = cands_[0]
     except Missing as m:
         for r in ("CLI-FLAGS", "CLI-DEFAULTS", "CLI-WIDTH", "CLI-KIND", "CLI-CONCAT", "CLI-MODE", "CLI-EXIT"):
             res.missing(r, m)
@@ -214,37 +322,9 @@ def run_cli(res, ast):
             argtxt.add(tuple(args or ()))
             res.check(ok and args == ["&" + N["code"], N["kind"], N["opt"], N["limit"], N["safe"]], "CLI-WIDTH", key, where(HPBF, arm[0], "main"),
                       f"{n} bit must run execute_code::<u{n}>(&code, kind, opt, limit, safe); found `{ast.src1(HPBF, b)}`")
-    # ------------------------------------------------------------------ kinds
-    ecp = [p_["pat"]["name"] for p_ in ec["node"]["sig"]["inputs"] if p_["t"] == "Arg" and p_["pat"]["t"] == "PIdent"]
-    ecp = ecp if len(ecp) == 5 else ["code", "kind", "opt", "limit", "safe"]
-    km = [m for m in walk_t(ec["node"]["body"], "Match") if path_name(strip_paren(m["expr"])) == ecp[1]]
-    if len(km) != 1:
-        res.bad("CLI-KIND", f"{HPBF}|execute_code|kind-match", where(HPBF, ec["node"], "execute_code"), f"expected one `match kind`, found {len(km)}")
-    else:
-        for a in km[0]["arms"]:
-            vn = a["pat"]["path"]["name"].split("::")[-1] if a["pat"]["t"] == "PPath" else None
-            key = f"{HPBF}|execute_code|kind|{vn}"
-            w = where(HPBF, a, "execute_code")
-            if vn in EXECUTORS:
-                b = ast.src1(HPBF, a["body"], 200).replace(" ", "")
-                want = f"Some(Box::new({EXECUTORS[vn]}::<C>::create({ecp[0]},{ecp[2]})?))"
-                res.check(b == want, "CLI-KIND", key, w, f"{vn} must build {want}; found `{b}`")
-            elif vn in PRINTERS:
-                body = strip_paren(a["body"])
-                tail = None
-                if body["t"] == "BlockExpr":
-                    st = body["block"]["stmts"]
-                    if st and st[-1]["t"] == "ExprStmt" and not st[-1]["semi"]:
-                        tail = path_name(strip_paren(st[-1]["expr"]))
-                execs = [m["method"] for m in walk_t(a["body"], "MethodCall") if m["method"].startswith("execute")]
-                srcs = [ast.src1(HPBF, c) for c in walk_t(a["body"], "Call") if path_name(c["func"]) and
-                        (path_name(c["func"]).endswith("::parse") or path_name(c["func"]).endswith("::create"))]
-                argok = all(f"({ecp[0]})" in s.replace(" ", "") or f"({ecp[0]},{ecp[2]})" in s.replace(" ", "") for s in srcs) and srcs
-                res.check(tail == "None" and not execs and argok, "CLI-KIND", key, w,
-                          f"{vn} must print and evaluate to None without executing; tail = {tail}, execute calls = {execs}, sources = {srcs}")
-            else:
-                res.bad("CLI-KIND", key, w, f"ExecutorKind::{vn} is not in the correspondence table (fail closed)")
-    # `exec` is only run through the mode chain below
+    # ------------------------------------------------------------------ kinds and modes: effect traces of execute_code
+    # (every ExecutorKind x {limit, checked, static} is evaluated; helper functions of the file are followed)
+    run_exec_traces(res, ast, ec)
     # ------------------------------------------------------------------ concat
     loops = [l for l in walk_t(mb, "ForLoop")]
     okl = len(loops) == 1 and ast.src1(HPBF, loops[0]["expr"]).replace(" ", "") == "env::args().skip(1)"
@@ -259,39 +339,13 @@ def run_cli(res, ast):
         writes = [a for a in walk_t(mb, "Assign") if path_name(a["left"]) == N["code"]]
         clears = [m for m in walk_t(mb, "MethodCall") if path_name(m["receiver"]) == N["code"] and m["method"] in ("clear", "truncate", "insert_str", "insert", "replace_range")]
         res.check(not writes and not clears, "CLI-CONCAT", f"{HPBF}|main|append-only", w0, "`code` must only ever be appended to")
-    # ------------------------------------------------------------------ mode
+    # ------------------------------------------------------------------ mode (see run_exec_traces)
     eb = ec["node"]["body"]
-    import pm
-    sigp = [p_["pat"]["name"] for p_ in ec["node"]["sig"]["inputs"] if p_["t"] == "Arg" and p_["pat"]["t"] == "PIdent"]
-    okm = False
-    why = "execute_code does not have the parameters (code, kind, opt, limit, safe)"
-    if len(sigp) == 5:
-        env0 = {"__v_limit": sigp[3], "__v_safe": sigp[4]}
-        pat = ("if let Some(__v_l) = __v_limit { __v_cxt.budget = __v_l; __v_exec.execute_limited(&mut __v_cxt)?; } "
-               "else if __v_safe { __v_exec.execute(&mut __v_cxt)?; } "
-               "else { __v_cxt.memory.make_accessible(__e_lo, __e_hi); unsafe { __v_exec.execute_unsafe(&mut __v_cxt)? }; }")
-        hits = [st for st in walk_t(eb, "ExprStmt") if st["expr"]["t"] == "If"]
-        b_ = None
-        for st in hits:
-            b_ = pm.match_expr(st["expr"], pat, env0)
-            if b_:
-                break
-        why = "the mode chain must be: `if let Some(l) = limit { cxt.budget = l; exec.execute_limited(&mut cxt)?; } else if safe { exec.execute(&mut cxt)?; } else { cxt.memory.make_accessible(-K, K); unsafe { exec.execute_unsafe(&mut cxt)? }; }`"
-        if b_:
-            v0, v1 = int_lit(b_["__e_lo"]), int_lit(b_["__e_hi"])
-            okm = v0 is not None and v1 is not None and v0 == -v1 and v1 >= 1 << 20
-            why = f"static mode pre-allocates [{v0}, {v1}): it must be symmetric and large"
-            cxt_name = b_["__v_cxt"]
-    res.check(okm, "CLI-MODE", f"{HPBF}|execute_code|mode-chain", where(HPBF, ec["node"], "execute_code"), why)
-    cxt_name = b_["__v_cxt"] if (len(sigp) == 5 and b_) else "cxt"
-    ctx = [s for s in eb["stmts"] if s["t"] == "Local" and s["pat"].get("name") == cxt_name]
-    res.check(len(ctx) == 1 and ast.src1(HPBF, ctx[0]["init"]).replace(" ", "") == "Context::<C>::with_stdio()", "CLI-MODE",
-              f"{HPBF}|execute_code|stdio", where(HPBF, ec["node"], "execute_code"), "the context must be Context::<C>::with_stdio()")
     unsafe_calls = [m for f in ast.find_fns(HPBF) for m in walk_t(f["node"].get("body") or {}, "MethodCall") if m["method"] == "execute_unsafe"]
     res.check(len(unsafe_calls) == 1, "CLI-MODE", f"{HPBF}|execute_unsafe-sites", HPBF, f"execute_unsafe must be called exactly once (after the pre-allocation); found {len(unsafe_calls)}")
     # ------------------------------------------------------------------ exit
     par = parents(main["node"])
-    pes = [c for c in walk_t(mb, "Call") if path_name(c["func"]) == "print_error"]
+    pes = [c for c in walk_t(mb, "Call") if path_name(c["func"]) == pe["name"]]
     for i, c in enumerate(pes):
         # the enclosing block must assign has_error = true after the call
         cur = c
@@ -305,10 +359,35 @@ def run_cli(res, ast):
         res.check(N["has_error"] + "=true;" in txt, "CLI-EXIT", f"{HPBF}|main|print_error|{i}", where(HPBF, c, "main"),
                   "a diagnosed error does not set has_error: the process would exit 0")
     res.check(len(pes) >= 3, "CLI-EXIT", f"{HPBF}|main|print_error-sites", w0, f"expected the two file errors and the execution error to be reported; found {len(pes)} print_error calls")
-    last = mb["stmts"][-1]
-    t = ast.src1(HPBF, last, 200).replace(" ", "")
-    res.check(t.startswith("if" + N["has_error"] + "{exit(1)}else{exit(0)}"), "CLI-EXIT", f"{HPBF}|main|exit", where(HPBF, last, "main"),
-              f"main must end with `if has_error {{ exit(1) }} else {{ exit(0) }}`; found `{t[:80]}`")
+    # the process status: evaluate the statements that lead to exit() for has_error in {true, false}
+    import trace as _tr
+    stm = mb["stmts"]
+    ex_i = [i_ for i_, s_ in enumerate(stm) if any(path_name(strip_paren(c_["func"])) in ("exit", "process::exit", "std::process::exit") for c_ in walk_t(s_, "Call"))]
+    why_exit = "main does not end in exit()"
+    ok_exit = False
+    if ex_i and ex_i[-1] == len(stm) - 1:
+        k_ = len(stm) - 1
+        # include the directly preceding `let`s the exit statement depends on
+        used = {n_["path"]["name"] for n_ in walk_t(stm[k_], "PathExpr")}
+        while k_ > 0 and stm[k_ - 1]["t"] == "Local" and stm[k_ - 1]["pat"]["t"] == "PIdent" and stm[k_ - 1]["pat"]["name"] in used:
+            k_ -= 1
+            used |= {n_["path"]["name"] for n_ in walk_t(stm[k_], "PathExpr")}
+        codes_ = {}
+        try:
+            for he in (True, False):
+                it = _tr.TraceInterp(ast, HPBF)
+                env_ = _tr.Env()
+                env_.bind(N["has_error"], he)
+                try:
+                    it.exec_block({"t": "Block", "stmts": stm[k_:], "sp": [0, 0, 0, 0]}, env_)
+                    codes_[he] = "no exit"
+                except _tr.ExitEx as x_:
+                    codes_[he] = x_.code
+            ok_exit = isinstance(codes_[True], int) and codes_[True] != 0 and codes_[False] == 0
+            why_exit = f"exit status is {codes_[True]!r} after an error and {codes_[False]!r} without: must be non-zero / 0"
+        except (_tr.Unanalysable, _tr.Reached, _tr.ReturnEx, KeyError) as u_:
+            why_exit = f"the exit status computation cannot be analysed (fail closed): {u_}"
+    res.check(ok_exit, "CLI-EXIT", f"{HPBF}|main|exit", where(HPBF, stm[-1], "main"), why_exit)
     # execution only when no error so far, and its Err is reported
     run_ok = False
     for i in walk_t(mb, "If"):
@@ -320,7 +399,7 @@ def run_cli(res, ast):
                 if p["t"] == "PTupleStruct" and p["path"]["name"] == "Err" and p["elems"][0]["t"] == "PIdent":
                     en = p["elems"][0]["name"]
                     tt = ast.src1(HPBF, j["then"], 200).replace(" ", "")
-                    run_ok = f"print_error({en});" in tt and N["has_error"] + "=true;" in tt
+                    run_ok = f"{pe['name']}({en});" in tt and N["has_error"] + "=true;" in tt
     res.check(run_ok, "CLI-EXIT", f"{HPBF}|main|run-guard", w0, "execution must happen only when no error was diagnosed, and its Err must be printed and set has_error")
     # print_error writes to stderr for the bracket and file errors
     pm = [m for m in walk_t(pe["node"]["body"], "Match")]
